@@ -101,15 +101,30 @@ def confirm_english_mask(check, r):
                 o = {"phonetic_suggestion": True, "fixed_suggestion": True, "english": e, "ansi": a, "_ansi_first": first}
                 for base, raw in ((PHON, "k"), (fixed, "j")):
                     scs.append(({"steps": [{"op": "new", "config": dict(base, opts=o)}, {"op": "key", "key": 0xA0A0 if base is PHON else 0xA09F}]}, e, a, first, raw))
-    out = run_replay([s[0] for s in scs])
+    # ... and setter histories on one Config object (a front end re-applying its settings): what counts is the last value given to each
+    import itertools
+    for n in (1, 2, 3):
+        for hist in itertools.product([("english", False), ("english", True), ("ansi", False), ("ansi", True)], repeat=n):
+            e = a = False
+            for k, v in hist:
+                if k == "english":
+                    e = v
+                else:
+                    a = v
+            o = {"phonetic_suggestion": True, "fixed_suggestion": True, "english": False, "ansi": False, "_then": [list(x) for x in hist]}
+            for base, raw in ((PHON, "k"), (fixed, "j")):
+                scs.append(({"steps": [{"op": "new", "config": dict(base, opts=o)}, {"op": "key", "key": 0xA0A0 if base is PHON else 0xA09F}]}, e, a, list(hist), raw))
+    from common import run_replay_parallel
+    out = run_replay_parallel([s[0] for s in scs])
     for (sc, e, a, first, raw), o in zip(scs, out):
         res = o["results"][1]
         lst = res.get("suggestion", {}).get("list", [])
         has = raw in lst
         if has != (e and not a):
+            order = ("setter calls %s on one Config object" % first) if isinstance(first, list) else ("options set in the order %s" % ("ANSI then English" if first else "English then ANSI"))
             return dict(key="english candidate mask",
-                        what="options set in the order %s, English=%s ANSI=%s (%s method): raw typed text offered=%s, list %s" % (
-                            "ANSI then English" if first else "English then ANSI", e, a, "phonetic" if raw == "k" else "fixed", has, lst),
+                        what="%s, English=%s ANSI=%s at the end (%s method): raw typed text offered=%s, list %s" % (
+                            order, e, a, "phonetic" if raw == "k" else "fixed", has, lst),
                         replay=dict(scenario=sc, observed=res))
     return False
 
